@@ -148,13 +148,16 @@ def run_svd(case, seed):
         big_l = qnl.reshape(list(case["shape_l"]) + [qs])
         big_r = qnr.reshape(list(case["shape_r"]) + [qs])
         arr = a.copy().reshape(list(case["shape_l"]) + list(case["shape_r"]))
+        keep = [x.copy() for x in (big_l, big_r, qntot)]
         out = M.svd_qn(arr, big_l, big_r, qntot, QR=case["QR"], system=case["system"],
                        full_matrices=case["full"], opt_full_matrices=case["opt"])
     except Exception as e:                                       # noqa
         res["error"] = type(e).__name__ + ": " + str(e)[:100]
         return res
-    if not numpy.array_equal(arr.reshape(m, n), a):
+    if arr.tobytes() != a.tobytes() or arr.dtype != a.dtype:
         res["oracle"].append("input array modified")
+    if any(x.tobytes() != k.tobytes() or x.dtype != k.dtype or x.shape != k.shape for x, k in zip((big_l, big_r, qntot), keep)):
+        res["oracle"].append("label arrays (qnbigl / qnbigr / qntot) modified")
     ap = LOG["append"]
     if len(ap) % 2:
         res["error"] = "odd number of blockappend calls"
@@ -298,10 +301,16 @@ def run_eigh(case, seed):
         dm = dm + j * ~(same & pres[:, None])
     LOG["append"].clear()
     try:
-        u, s, new_qn = M.eigh_qn(dm.copy(), qnl, qnr, qntot, case["system"])
+        dm_in = dm.copy()
+        keep = [x.copy() for x in (qnl, qnr, qntot)]
+        u, s, new_qn = M.eigh_qn(dm_in, qnl, qnr, qntot, case["system"])
     except Exception as e:                                       # noqa
         res["error"] = type(e).__name__ + ": " + str(e)[:100]
         return res
+    if dm_in.tobytes() != dm.tobytes() or dm_in.dtype != dm.dtype:
+        res["oracle"].append("input density matrix modified")
+    if any(x.tobytes() != k.tobytes() or x.dtype != k.dtype or x.shape != k.shape for x, k in zip((qnl, qnr, qntot), keep)):
+        res["oracle"].append("label arrays (qnbigl / qnbigr / qntot) modified")
     ap = LOG["append"]
     res["order"] = [b["key"] for b in ap]
     new_qn = [[int(x) for x in numpy.asarray(t).ravel()] for t in new_qn]
